@@ -8,6 +8,7 @@ str   := <n> <code point>*n
 path  := <n> <str>*n
 gitignore <npats> <str pattern>*npats <npaths> <path>*npaths
   -> ok <bits>          one character per path: 1 = excluded by DEFAULT_EXCLUDES ++ the patterns
+                        (blank lines and `#` comment lines among the patterns are skipped, as pathspec does)
    | unparsed <i>       pattern number i (from 0) is outside the six modelled classes
 gitclass <str pattern>
   -> ok <k> <str>*      k = 0 name x | 1 dirOnly d | 2 ext e | 3 rel ps | 4 under a | 5 rooted ps,
@@ -51,10 +52,10 @@ def showS (s : Str) : String := toString s.length ++ String.join (s.map fun c =>
 
 def showNames (ps : List Str) : String := toString ps.length ++ String.join (ps.map fun c => " " ++ showS c)
 
-/-- index of the first line that does not parse -/
+/-- index of the first line that is neither ignored (blank, `#` comment) nor parsed -/
 def firstUnparsed : List Str → Nat → Option Nat
   | [], _ => none
-  | s :: r, i => if (Pat.parse s).isSome then firstUnparsed r (i + 1) else some i
+  | s :: r, i => if ignoredLine s || (Pat.parse s).isSome then firstUnparsed r (i + 1) else some i
 
 def handleGitignore (cmd : String) (args : List String) : Option String :=
   let run {α} (p : GS α) : α := (p.run args).1
